@@ -228,15 +228,22 @@ def process(job):
 def summary():
     rows = {}
     und = []
+    best = {}
+    rank = {'detected': 3, 'check-crashed': 2, 'killed-by-tests': 2, 'undetected': 1}
     for fn in sorted(os.listdir(OUT)):
         if not fn.endswith('.jsonl'):
             continue
         for line in open(os.path.join(OUT, fn)):
             r = json.loads(line)
-            c = rows.setdefault(r['file'], {})
-            c[r['result']] = c.get(r['result'], 0) + 1
-            if r['result'] == 'undetected':
-                und.append(r)
+            k = (r['file'], r['index'])
+            if k not in best or rank.get(r['result'], 0) > rank.get(best[k]['result'], 0):
+                best[k] = r        # (a mutant processed twice — two sweep processes, or re-run after a check was strengthened — counts once)
+    for r in best.values():
+        c = rows.setdefault(r['file'], {})
+        c[r['result']] = c.get(r['result'], 0) + 1
+        if r['result'] == 'undetected':
+            und.append(r)
+    und.sort(key=lambda r: (r['file'], r['line'], r['index']))
     print('| file | mutants | killed by the 470 tests | survive the tests | detected by a check | undetected |')
     print('|---|---|---|---|---|---|')
     for f, c in rows.items():
@@ -244,8 +251,14 @@ def summary():
         surv = c.get('detected', 0) + c.get('undetected', 0) + c.get('check-crashed', 0)
         print(f"| {f} | {n} | {c.get('killed-by-tests', 0)} | {surv} | {c.get('detected', 0) + c.get('check-crashed', 0)} | {c.get('undetected', 0)} |")
     print()
+    tot = {}
+    for c in rows.values():
+        for k, v in c.items():
+            tot[k] = tot.get(k, 0) + v
+    print('TOTAL', tot)
     for r in und:
-        print(f"UNDETECTED {r['file']}:{r['line']} #{r['index']} {r['operator']}: {r['source']}")
+        src = r['source'].split(chr(10))[0]
+        print(f"UNDETECTED {r['file']}:{r['line']} #{r['index']} {r['operator']}: {src}")
 
 
 def main():
@@ -256,6 +269,7 @@ def main():
     ap.add_argument('--budget-min', type=float, default=200)
     ap.add_argument('--summary', action='store_true')
     ap.add_argument('--list', action='store_true')
+    ap.add_argument('--recheck', default='', help='comma-separated mutant indices of the single file given: process them again')
     a = ap.parse_args()
     os.makedirs(OUT, exist_ok=True)
     if a.summary:
@@ -276,6 +290,9 @@ def main():
             for i, (k, ln, b, _) in enumerate(ms):
                 print(f'  #{i} {k} line {ln}: {b}')
             continue
+        if a.recheck:
+            done -= {int(x) for x in a.recheck.split(',')}
+            done |= {i for i in range(len(ms)) if i not in {int(x) for x in a.recheck.split(',')}}
         jobs = [(path, i, k, ln, b, m, a.jobs, deadline) for i, (k, ln, b, m) in enumerate(ms) if i not in done]
         with multiprocessing.Pool(a.workers) as pool, open(outp, 'a') as f:
             for rec in pool.imap_unordered(process, jobs):
